@@ -98,3 +98,13 @@ Proof.
   { apply (NK 3 (rf T_PREPREPARE 1 777) (sg 1) (Some blkB) None false). unfold fork_run. do 5 (apply in_or_app; left). apply in_or_app; right. left; reflexivity. }
   discriminate.
 Qed.
+
+(* non-vacuity for C03: the committers of the run above do hand over certificates, and the strict validator model accepts them *)
+From LH Require Import VBC Cert.
+Example fork_commit_certificates :
+  match commits_out (tc_out (nstate 1 cm4 cfg4 nowm noshut fresh0 lead1 2 fork_run)) with
+  | [(b, r, sgs, so)] => vbc {| vc_inst := 7; vc_committee := Some cm4 |} false (Some b) false
+                            (Some {| ap_ref := r; ap_nodes := sgs; ap_seed_nonempty := true; ap_seed_ok := so |}) false = true /\ length sgs = 3%nat
+  | _ => False
+  end.
+Proof. vm_compute. split; reflexivity. Qed.
